@@ -28,7 +28,7 @@ def key_cache(m, obs):
 
 
 def validate(chk, pid, obs_path, cases, shards):
-    out, lines, rs = core.tlc_validate("trace/PropCacheTrace.tla", "trace/PropCacheTrace.cfg", obs_path, shards=shards, timeout=3000)
+    out, lines, rs = core.tlc_validate("trace/PropCacheTrace.tla", "trace/PropCacheTrace.cfg", obs_path, shards=shards, timeout=3000, env=po.FAST_JVM)
     po.classify(chk, pid, out["MISMATCH"], lines, cases, key_cache)
     return lines
 
@@ -45,43 +45,51 @@ def run(pid, tier, replay):
     if replay:
         return po.do_replay(chk, pid, binary, replay, "c31", validate)
     quick = chk.quick
-    po.model_check(chk, "mc/MC_PropCache.tla", "mc/MC_PropCache.cfg" if quick else "mc/MC_PropCache_thorough.cfg", ACTIONS)
+    with po.Phase(chk, "model_check"):
+        po.model_check(chk, "mc/MC_PropCache.tla", "mc/MC_PropCache.cfg" if quick else "mc/MC_PropCache_thorough.cfg", ACTIONS,
+                       workers=4 if quick else 8)
     cases_path = chk.path("cases.ndjson")
-    g, n = core.tlc_generate("gen/Gen_PropCache.tla", "gen/Gen_PropCache_quick.cfg" if quick else "gen/Gen_PropCache_thorough.cfg",
-                             cases_path, timeout=3000)
+    with po.Phase(chk, "generate"):
+        g, n = core.tlc_generate("gen/Gen_PropCache.tla", "gen/Gen_PropCache_quick.cfg" if quick else "gen/Gen_PropCache_thorough.cfg",
+                                 cases_path, timeout=3000, workers=4)
     chk.add_tlc(g)
     obs_path = chk.path("obs.ndjson")
-    po.run_sharded(binary, "c31", cases_path, obs_path, procs=4 if quick else 8)
+    with po.Phase(chk, "replay"):
+        po.run_sharded(binary, "c31", cases_path, obs_path, procs=4 if quick else 8)
     cases = po.load_cases(cases_path)
-    lines = validate(chk, pid, obs_path, cases, shards=8 if quick else 14)
+    with po.Phase(chk, "validate"):
+        lines = validate(chk, pid, obs_path, cases, shards=6 if quick else 14)
     # second family: PropertyChanged::get's refetch racing newer signals
     cases2_path = chk.path("cases_refetch.ndjson")
-    g2, n2 = core.tlc_generate("gen/Gen_PropCacheRefetch.tla",
-                               "gen/Gen_PropCacheRefetch_quick.cfg" if quick else "gen/Gen_PropCacheRefetch_thorough.cfg",
-                               cases2_path, timeout=3000)
-    chk.add_tlc(g2)
-    obs2_path = chk.path("obs_refetch.ndjson")
-    po.run_sharded(binary, "c31", cases2_path, obs2_path, procs=1)
-    lines2 = validate(chk, pid, obs2_path, po.load_cases(cases2_path), shards=1 if quick else 4)
+    with po.Phase(chk, "refetch_family"):
+        g2, n2 = core.tlc_generate("gen/Gen_PropCacheRefetch.tla",
+                                   "gen/Gen_PropCacheRefetch_quick.cfg" if quick else "gen/Gen_PropCacheRefetch_thorough.cfg",
+                                   cases2_path, timeout=3000, workers=2)
+        chk.add_tlc(g2)
+        obs2_path = chk.path("obs_refetch.ndjson")
+        po.run_sharded(binary, "c31", cases2_path, obs2_path, procs=1)
+        lines2 = validate(chk, pid, obs2_path, po.load_cases(cases2_path), shards=1 if quick else 4)
     chk.add("refetch_cases", n2)
     lines = lines + lines2
     n += n2
-    objs = [json.loads(x) for x in lines]
     chk.add("enumerated_cases", n)
     chk.cov["exhaustive"] = True
     chk.add("traces_validated_against_impl", len(lines))
     chk.cov["evaluations"] = len(lines)
-    chk.cov["distinct_nontrivial"] = core.distinct_count([o for o in objs if nontrivial(o)], lambda o: json.dumps([o.get("mode"), o.get("evs")]))
+    dn, cnt, samples = po.stats(
+        lines, nontrivial, lambda o: json.dumps([o.get("mode"), o.get("evs")]),
+        {"cache_observations": lambda o: sum(1 for e in o.get("evs", []) if e["k"] == "obs"),
+         "stream_items": lambda o: sum(len(v) for v in o.get("streams", {}).values()),
+         "gets_via_bus": lambda o: sum(1 for v in o.get("gets", {}).values() if v.get("via_get"))})
+    chk.cov["distinct_nontrivial"] = dn
+    chk.cov.update(cnt)
     chk.cov["rule"] = ("cases = every arrival order of one GetAll reply (full; partial snapshot for the short ones) and <= N (3 quick, 4 thorough) "
                        "PropertiesChanged signals of 8 kinds (own/other interface, change/invalidate/both, cached/uncached property, stranger "
                        "sender, other object; position-dependent values) x CacheProperties::{Yes,Lazily} x schedule (client run after every "
                        "message / once at the end / messages around the reply queued together), plus the refetch family (Get reply of "
                        "PropertyChanged::get among <= 3/4 further signals, 2 schedules); distinct by (mode, received history with "
                        "quiescent points); non-trivial = at least one signal is received after the GetAll reply")
-    chk.cov["cache_observations"] = sum(1 for o in objs for e in o.get("evs", []) if e["k"] == "obs")
-    chk.cov["stream_items"] = sum(len(v) for o in objs for v in o.get("streams", {}).values())
-    chk.cov["gets_via_bus"] = sum(1 for o in objs for v in o.get("gets", {}).values() if v.get("via_get"))
-    for o in objs[:1] + objs[len(objs) // 2:len(objs) // 2 + 2] + objs[-1:]:
+    for o in samples:
         chk.sample({k: o.get(k) for k in ("mode", "evs", "streams", "gets")})
     chk.assumptions += [
         "schedules are at message granularity: the cache task has no await point inside the critical sections modelled (init's join step, update_cache)",
